@@ -1053,6 +1053,35 @@ impl DhcpService {
     }
 }
 
+/// Verification hooks (built only with `--cfg erbium_verif`): a service object
+/// around a caller-supplied lease pool (no fixed database path, no port 67), so
+/// that the HTTP request handler can be driven without sockets.
+#[cfg(erbium_verif)]
+impl DhcpService {
+    pub async fn verif_new_with_pool(
+        netinfo: erbium_net::netinfo::SharedNetInfo,
+        conf: super::config::SharedConfig,
+        pool: pool::Pool,
+    ) -> Result<Self, String> {
+        let rawsock = Arc::new(raw::RawSocket::new(raw::EthProto::ALL).map_err(|e| e.to_string())?);
+        let listener = UdpSocket::bind(&[net::Ipv4Addr::LOCALHOST.with_port(0)])
+            .await
+            .map_err(|e| e.to_string())?;
+        Ok(Self {
+            netinfo,
+            conf,
+            rawsock,
+            pool: Arc::new(sync::Mutex::new(pool)),
+            serverids: Arc::new(sync::Mutex::new(std::collections::HashSet::new())),
+            listener,
+        })
+    }
+
+    pub fn verif_pool(&self) -> Arc<sync::Mutex<pool::Pool>> {
+        self.pool.clone()
+    }
+}
+
 #[test]
 fn test_policy() {
     let cfg = config::Policy {
